@@ -258,7 +258,8 @@ def judgeLockSteps (steps : List (Nat × String)) (impl : String) (writers : Boo
     | (a, op) :: rest, (res, st) :: irest =>
       let locking := op == "lock" || op == "open"
       let held := lockAbs r.w
-      if locking && held && res == "ok" then (if writers then "bad:second-writer-admitted" else "bad:second-lock-admitted")
+      if writers && res == "panic" then "bad:open-writer-panicked"      -- refused means an error, not a crash
+      else if locking && held && res == "ok" then (if writers then "bad:second-writer-admitted" else "bad:second-lock-admitted")
       else if locking && held && res != "ok" && st != prev && st != "-" then
         (if writers then "bad:refused-writer-removed-lock-file" else "bad:refused-lock-touched-pid-file")
       else if locking && !held && res == "ok" && st != "pid" && st != "-" then "bad:lock-without-pid-line"
